@@ -1,6 +1,9 @@
 (* case line:   P | P | ...      (parses run one after another, optreset = 1 before each)
      P = api <miss|-> <stop|-> <nslots> <slot>... <argc> <arg>...
      slot = - | <hexname>:<0|1>          arg = hex ("-" = empty string)
+     P = lay <stop|-> <nlines> <line>... <argc> <arg>...      a compiled GETOPT_SWITCH statement:
+     line = - | M | <hexname>:<0|1>      its source lines from the GETOPT_SWITCH line (offset 0) to the
+                                         line before GETOPT_DEFAULT; runs the indexing pass of the macros
    result line: R | R | ...   with R = <ev>,<ev>,...;<optind|stopped>  or  fault/assert/fuel
      ev = O:<name> | A:<name>:<arg> | M:<name> | D:<name>          (no events: "none")
    "spec <case>" evaluates the reference parser (each parse fresh), "coded <case>" the
@@ -13,13 +16,19 @@ let show_ev = function
 let show_evs evs = if evs = [] then "none" else String.concat "," (List.map show_ev evs)
 let show_parse evs k = show_evs evs ^ ";" ^ (match k with Some k -> string_of_int (int_of_nat k) | None -> "stopped")
 
-type parse = { miss : nat option; stop : int option; tbl : ((n list * bool) option) list; argv : n list list }
+type parse = { miss : nat option; stop : int option; tbl : ((n list * bool) option) list; argv : n list list;
+               lay : lline list option }
 
 let parse_slot s =
   if s = "-" then None else
     match String.split_on_char ':' s with
     | [h; a] -> Some (bytes_of_hex h, a = "1")
     | _ -> failwith "slot"
+let parse_line s =
+  if s = "-" then LNone else if s = "M" then LMiss else
+    match String.split_on_char ':' s with
+    | [h; a] -> LOpt (bytes_of_hex h, a = "1")
+    | _ -> failwith "line"
 let rec take n l = if n <= 0 then ([], l) else match l with [] -> failwith "short" | x :: r -> let (a, b) = take (n - 1) r in (x :: a, b)
 let parse_one toks =
   match toks with
@@ -31,7 +40,17 @@ let parse_one toks =
        if rest <> [] then failwith "trailing";
        { miss = (if miss = "-" then None else Some (nat_of_int (int_of_string miss)));
          stop = (if stop = "-" then None else Some (int_of_string stop));
-         tbl = List.map parse_slot slots; argv = List.map bytes_of_hex args }
+         tbl = List.map parse_slot slots; argv = List.map bytes_of_hex args; lay = None }
+     | [] -> failwith "argc")
+  | "lay" :: stop :: nl :: rest ->
+    let (lines, rest) = take (int_of_string nl) rest in
+    (match rest with
+     | ac :: rest ->
+       let (args, rest) = take (int_of_string ac) rest in
+       if rest <> [] then failwith "trailing";
+       let lay = List.map parse_line lines in
+       { miss = miss_of lay; stop = (if stop = "-" then None else Some (int_of_string stop));
+         tbl = table_of lay; argv = List.map bytes_of_hex args; lay = Some lay }
      | [] -> failwith "argc")
   | _ -> failwith "parse"
 let rec split_bar toks =
@@ -48,11 +67,12 @@ let run_model_seq ps =
       let fail name = st := init_state; name in
       match p.stop with
       | None ->
-        (match run_from s0 p.tbl p.miss p.argv with
+        (match (match p.lay with Some l -> run_switch_from s0 l p.argv | None -> run_from s0 p.tbl p.miss p.argv) with
          | Ok ((evs, k), s) -> st := s; show_parse evs (Some k)
          | Fault -> fail "fault" | AssertFail -> fail "assert" | OutOfFuel -> fail "fuel")
       | Some n ->
-        (match run_from_n (nat_of_int n) s0 p.tbl p.miss p.argv with
+        (match (match p.lay with Some l -> run_switch_from_n (nat_of_int n) s0 l p.argv
+                             | None -> run_from_n (nat_of_int n) s0 p.tbl p.miss p.argv) with
          | Ok ((evs, k), s) -> st := s; show_parse evs k
          | Fault -> fail "fault" | AssertFail -> fail "assert" | OutOfFuel -> fail "fuel")) ps
 
